@@ -1,5 +1,7 @@
 import Driver.Util
 import NutsModel.C07.Net
+import NutsModel.C07.Iblt
+import Std.Data.HashMap
 import NutsModel.Facts.C07
 import NutsModel.C15.Authn
 open Lean Nuts.Drv Nuts.Proto Nuts
@@ -145,9 +147,30 @@ def sentLine (w : World) (from_ : Nat) : String :=
 
 def strLt (a b : String) : Bool := a < b
 
+/-- murmur3 on the harness's key universe, as data (op `ibltuni`) -/
+structure IbU where
+  hk : Array Nat := #[]
+  c0 : Std.HashMap Nat Nat := {}
+  chain : Std.HashMap Nat Nat := {}
+
+def IbU.hash (u : IbU) : Iblt.Hash :=
+  { hashKey := fun r => u.hk[r]?.getD 0, chain0 := fun h => (u.c0.get? h).getD 0, chain := fun x => (u.chain.get? x).getD 0 }
+
+def ibltPar : Iblt.Par := ⟨Nuts.Facts.C07.ibltK, Nuts.Facts.C07.ibltMaxChain⟩
+
+def ibltDigest (t : Iblt.Table) : Nat :=
+  let p := 2 ^ 61 - 1
+  t.foldl (fun acc b =>
+    let a1 := (acc * 1000003 + (b.count % (2 ^ 32 : Int)).toNat % p) % p
+    let a2 := (a1 * 1000003 + b.hashSum % p) % p
+    (a2 * 1000003 + b.keySum % p) % p) 0
+
+def natList (l : List Nat) : String := "[" ++ String.intercalate "," (l.map toString) ++ "]"
+
 structure DSt where
   st : St := {}
   grefs : Array Ref := #[]
+  ib : IbU := {}
 
 def initNode (st : St) (env : Env) (id : Nat) (nj : Json) : Node × Nat :=
   let did := jStr nj "did"
@@ -290,6 +313,35 @@ def step (d : DSt) (j : Json) : DSt × List String :=
         let c := ((peerOf n' peer).map (·.connected)).getD false
         ({ d with st := { st with w := w' } }, [s!"conn connected={c} queue={n'.queues.any (fun q => q.peer == peer)}"])
   | "fault" => (d, ["fault armed"])
+  | "ibltuni" =>
+    let hk := ((jArr j "hk").filterMap (fun x => x.getNat?.toOption)).toArray
+    let c0s := (jArr j "c0").filterMap (fun x => x.getNat?.toOption)
+    let c0 := (hk.toList.zip c0s).foldl (fun (m : Std.HashMap Nat Nat) (p : Nat × Nat) => m.insert p.1 p.2) {}
+    let pairs := (jArr j "chain").filterMap (fun x => match x with
+      | .arr a => match a.toList.filterMap (fun y => y.getNat?.toOption) with
+        | [a, b] => some (a, b)
+        | _ => none
+      | _ => none)
+    let chain := pairs.foldl (fun (m : Std.HashMap Nat Nat) (p : Nat × Nat) => m.insert p.1 p.2) {}
+    ({ d with ib := { hk := hk, c0 := c0, chain := chain } }, [s!"ibltuni keys={hk.size} chain={pairs.length}"])
+  | "bidx" =>
+    let H := d.ib.hash
+    (d, [s!"bidx {natList (Iblt.bucketIndices H ibltPar (jNat j "n") (H.hashKey (jNat j "v")))}"])
+  | "iblt" =>
+    let H := d.ib.hash
+    let loc := Iblt.encode H ibltPar (jNat j "n") (jNats j "loc")
+    let peer0 := Iblt.encode H ibltPar (jNat j "pn") (jNats j "peer")
+    let peer := (jArr j "tamper").foldl (fun (t : Iblt.Table) tj =>
+      Iblt.modAt t (jNat tj "i") (fun b => ⟨b.count + jInt tj "dc", b.hashSum ^^^ jNat tj "hx", b.keySum ^^^ jNat tj "kx"⟩)) peer0
+    let head := s!"iblt enc={ibltDigest loc} penc={ibltDigest peer}"
+    match Iblt.subtract loc peer with
+    | none => (d, [head ++ " sub=err"])
+    | some t =>
+      match Iblt.decode H ibltPar 100000 t with
+      | .ok r m => (d, [s!"{head} sub=ok res=ok rem={natList r} mis={natList m}"])
+      | .notPossible r m => (d, [s!"{head} sub=ok res=fail rem={natList r} mis={natList m}"])
+      | .loop => (d, [head ++ " sub=ok res=loop rem=[] mis=[]"])
+      | .fuel => (d, [head ++ " sub=ok res=fuel"])
   | "chunk" =>
     let cfg := { baseCfg with maxMsg := jNat j "maxmsg" }
     let txs : List NetTx := (jArr j "runs").flatMap (fun r => match r with
